@@ -5,42 +5,39 @@ import CV.Proofs.HuffSpec
 Property theorems only.  `encode_symbol_suffix` compares the `usize` symbol with
 `nodes.len() / 2` before anything else, without any narrowing; so every symbol value `≥ n`
 (including `2^32 + k`, `usize::MAX`) yields `ImpossibleSymbol` and no bit is emitted — in both
-the suffix and the (default, `SmallBitStack`-based) prefix form.  The codebook is immutable, so
-"everything encoded before still decodes" is the bit-coder's statement (C16).
+the suffix and the (default, `SmallBitStack`-based) prefix form.  Proved for every weight type
+(`WeightOps`: integer, wrapping, rounding float sums), for every tree a constructor returns.
+The codebook is immutable, so "everything encoded before still decodes" is the bit-coder's
+statement (C16).
 -/
 namespace CV.Huff.C09
 open CV CV.Huff
 
-/-- every symbol `≥ n` is rejected by both forms, for every admissible weight list -/
-theorem out_of_alphabet_rejected {wb : Option Nat} {ws : List Nat} (h : Admissible wb ws)
-    {en : List Nat} (hen : encTree wb ws = .ok en) {s : Nat} (hs : ws.length ≤ s) :
+variable {α : Type} {ops : WeightOps α} {ws : List α} {en : List Nat}
+
+/-- every symbol `≥ n` is rejected by both forms -/
+theorem out_of_alphabet_rejected (hen : encTree ops ws = .ok en) {s : Nat} (hs : ws.length ≤ s) :
     encodeSuffix en s = .error .impossible ∧ encodePrefix en s = .error .impossible := by
-  obtain ⟨en', dn, T, he, _, _, B⟩ := admissible_build h
-  rw [hen] at he; injection he with he; subst he
+  obtain ⟨dn, T, _, _, B⟩ := built_of_enc hen
   exact ⟨B.suffix_reject hs, B.prefix_reject hs⟩
 
 /-- … and a failing `emit` observes nothing (no bit is emitted before the rejection) -/
-theorem rejected_emits_nothing {wb : Option Nat} {ws : List Nat} (h : Admissible wb ws)
-    {en : List Nat} (hen : encTree wb ws = .ok en) {s : Nat} (hs : ws.length ≤ s) :
+theorem rejected_emits_nothing (hen : encTree ops ws = .ok en) {s : Nat} (hs : ws.length ≤ s) :
     ¬ ∃ w, encodeSuffix en s = .ok w ∨ encodePrefix en s = .ok w := by
-  obtain ⟨h1, h2⟩ := out_of_alphabet_rejected h hen hs
+  obtain ⟨h1, h2⟩ := out_of_alphabet_rejected hen hs
   rintro ⟨w, hw | hw⟩
   · rw [h1] at hw; cases hw
   · rw [h2] at hw; cases hw
 
 /-- conversely every symbol of the alphabet is accepted (the rejection is exact) -/
-theorem in_alphabet_accepted {wb : Option Nat} {ws : List Nat} (h : Admissible wb ws)
-    {en : List Nat} (hen : encTree wb ws = .ok en) {s : Nat} (hs : s < ws.length) :
+theorem in_alphabet_accepted (hen : encTree ops ws = .ok en) {s : Nat} (hs : s < ws.length) :
     ∃ w, encodePrefix en s = .ok w ∧ encodeSuffix en s = .ok w.reverse := by
-  obtain ⟨en', dn, T, he, _, _, B⟩ := admissible_build h
-  rw [hen] at he; injection he with he; subst he
+  obtain ⟨dn, T, _, _, B⟩ := built_of_enc hen
   obtain ⟨p, hp⟩ := B.code_of_lt hs
   exact ⟨p, B.prefix hp, B.suffix hp⟩
 
 /-- non-vacuity: a concrete codebook, a symbol aliasing symbol 3 modulo `2^32` -/
-example : Admissible (some 32) [2, 2, 4, 1, 1] := by
-  refine ⟨by decide, by decide, ?_⟩; simp [WeightsFit]
-example : encTree (some 32) [2, 2, 4, 1, 1] = .ok [12, 13, 15, 10, 11, 14, 16, 17, 0] := by
+example : encTree (checkedOps 32) [2, 2, 4, 1, 1] = .ok [12, 13, 15, 10, 11, 14, 16, 17, 0] := by
   rfl
 example : encodePrefix [12, 13, 15, 10, 11, 14, 16, 17, 0] (2^32 + 3) = .error .impossible := by
   rfl
